@@ -364,10 +364,9 @@ func runC20(r *evid.Run) {
 				// does the generic runtime accept the same bytes? if not, the excess comes from a
 				// length-delimited field that the hand-optimised decoder lets run past its enclosing entry
 				var gs types.Stat
-				var gp types.Packet
-				_ = gp
+				gp := &types.Packet{}
 				isStat := strings.Contains(m, "string bytes")
-				if (isStat && proto.Unmarshal(b, &gs) != nil) || (!isStat && proto.Unmarshal(b, &gp) != nil) {
+				if (isStat && proto.Unmarshal(b, &gs) != nil) || (!isStat && proto.Unmarshal(b, gp) != nil) {
 					key = "decode:oversize-nested-field-rejected-by-generic-runtime"
 				}
 			}
